@@ -97,6 +97,10 @@ ASSUMPTIONS = [
     "candidates the bounded original examines in its next resampling round",
 ]
 TECHNIQUE = "Lean 4 model + theorems; lock-step correspondence over the configuration lattice; property oracle"
+LEVEL_TEXT = ("proof: clipping, zero-noise exactness, perturbation-only, the resample post-condition, the dtype algebra, "
+              "shapes and bounds parsing are Lean theorems about the Emit model for all inputs; the model is tied to "
+              "the code by an exact (rational) lock-step comparison over the whole configuration lattice; 'finite' and "
+              "pycma are monitored, not proved")
 
 D = {"f32": np.float32, "f64": np.float64}
 TOL = {"f32": Fraction(1, 2**18), "f64": Fraction(1, 2**40)}
@@ -609,7 +613,7 @@ def es_ask_step(info, case, drv, where, ctx):
     rem = int(drv.ask(f"rs new {batch}").split("=")[1])
     rounds = 0
     while rem > 0:
-        if rounds >= 3000:
+        if rounds >= 20000:
             return out, Failure("corr", f"{where}: model still has {rem} rows out of bounds after {rounds} rounds "
                                 f"although ask() returned")
         cands = twin.ask(rem)
@@ -950,7 +954,7 @@ def warm_up(kinds):
 
 def run_group(ctx, kinds):
     quick = ctx.quick
-    lo_it, hi_it = (3, 5) if quick else (6, 30)
+    lo_it, hi_it = (5, 6) if quick else (6, 30)
     rc = lambda case: run_case(case, ctx)
     warm_up([k for k in kinds if k != "bounds"])
     for kind in kinds:
